@@ -82,6 +82,7 @@ def call(S, op, g, rng=None):
     def mo(k):
         return None if k == -1 else k
 
+    hg.begin_call()
     with warnings.catch_warnings(record=True) as wlist:
         warnings.simplefilter("always")
         try:
@@ -163,6 +164,7 @@ def call(S, op, g, rng=None):
             if isinstance(ex, (KeyboardInterrupt, SystemExit)):
                 raise
             res = classify(ex)
+    hg.end_call()
     return res, len(wlist), newg
 
 
